@@ -14,8 +14,8 @@ import (
 
 func init() {
 	fw.Register(&fw.Check{
-		ID: "C06",
-		Rule: "cases: JSON values (as Go values and as raw re-spelled bytes) hashed with codes 18/19 and every unsupported code in a list; validation of each value, every re-spelling and 6 single-point modifications against hashes of both algorithms; prefix-code queries against 6 algorithm lists; labelled malformed encodings (non-alphabet, padded, wrong length field, truncated, empty, one byte). Oracle: own base64url/varint/multihash codec + reference JCS. distinct = distinct (shape of value, mutation kind) and malformed classes.",
+		ID:          "C06",
+		Rule:        "cases: JSON values (as Go values and as raw re-spelled bytes) hashed with codes 18/19 and every unsupported code in a list; validation of each value, every re-spelling and 6 single-point modifications against hashes of both algorithms; prefix-code queries against 6 algorithm lists; labelled malformed encodings (non-alphabet, padded, wrong length field, truncated, empty, one byte). Oracle: own base64url/varint/multihash codec + reference JCS. distinct = distinct (shape of value, mutation kind) and malformed classes.",
 		Assumptions: []string{"crypto/sha256, crypto/sha512", "harness JCS oracle (validated by C05's self-test vectors)"},
 		Require:     []string{"calc", "validate-equal", "validate-modified", "validate-noncanonical-spelling", "malformed", "unsupported-code", "calculate-id"},
 		Run:         runC06,
@@ -175,6 +175,12 @@ func c06Values(c *fw.Case, n int) {
 				alt := (idx &^ (1<<spare - 1)) | ((idx + 1) & (1<<spare - 1))
 				if alt != idx {
 					variants["non-zero-trailing-bits"] = hh[:len(hh)-1] + string(alpha[alt])
+				}
+			}
+			// well-formed multihashes of the right algorithm whose digest is only a prefix of the real one
+			if dm, err := oracle.DecodeEncodedMultihash(hh); err == nil {
+				for _, n := range []int{0, 1, 16, len(dm.Digest) - 1} {
+					variants[fmt.Sprintf("digest-truncated-to-%d", n)] = oracle.B64(oracle.WrapDigest(code, dm.Digest[:n]))
 				}
 			}
 			for name, vs := range variants {
